@@ -75,8 +75,11 @@ Proof.
   bind_ok H c1 H1. inv_ok H.
   unfold ce_select in H1. destruct text as [|ch text']; [discriminate|]. cbn [itext] in H1.
   apply with_inner_ok in H1 as (ci & Hci & ->).
-  destruct W as [Wc Wcur].
-  destruct (push_selection_wf _ (mkIv (ps_begin p) (ps_end p) true (ch :: text')) _ Wc Hlt Hci) as (W' & Hsym & Hsel).
+  assert (Hsym : symbols ci = symbols (inner (com s)) /\
+                 selections ci = filter (fun x => negb (iv_intersect x (mkIv (ps_begin p) (ps_end p) true (ch :: text')))) (selections (inner (com s)))
+                                 ++ [mkIv (ps_begin p) (ps_end p) true (ch :: text')]).
+  { unfold comp_push_selection in Hci. destruct (Nat.ltb _ _); [discriminate|]. inv_ok Hci. split; reflexivity. }
+  destruct Hsym as (Hsym & Hsel).
   assert (K : forall e0, inner (if o_auto_shift (opts s) then ce_right (ce_pop_cursor e0) else ce_pop_cursor e0) = inner e0).
   { intros e0. destruct (o_auto_shift (opts s)); unfold ce_right, ce_pop_cursor; destruct (cursor_stack e0); reflexivity. }
   cbn [com set_com dict opts]. rewrite K. cbn [inner].
